@@ -125,12 +125,17 @@ type dataArg struct {
 }
 
 func dataArgs(tag byte) []dataArg {
-	return []dataArg{
+	out := []dataArg{
 		{"nil", nil},
 		{"empty", []byte{}},
 		{"1B", []byte{tag}},
 		{"3B", []byte{tag + 1, tag + 2, tag + 3}},
 	}
+	if tag == 0x60 || tag == 0x40 {
+		// Append / Prepend: a byte with the continuation bit, so that numbers can straddle compartments
+		out = append(out, dataArg{"hi", []byte{0x81}})
+	}
+	return out
 }
 
 var numbers = []uint64{0, 1, 3, 127, 128, 255, 256, 1 << 62, 1 << 63, ^uint64(0)}
@@ -419,6 +424,10 @@ var seeds = []seed{
 	{"New(ab)", func() *container.Container { return container.New([]byte{0x01, 0x02}) }, []byte{0x01, 0x02}},
 	{"New(a,b,cd)", func() *container.Container { return container.New([]byte{0x01}, []byte{0x02}, []byte{0x03, 0x04}) }, []byte{1, 2, 3, 4}},
 	{"NewContainer(a,empty,b)", func() *container.Container { return container.NewContainer([]byte{0x01}, []byte{}, []byte{0x02}) }, []byte{1, 2}},
+	// multi-byte numbers / length prefixes whose bytes lie in different compartments
+	{"New(81,01 61 62)", func() *container.Container { return container.New([]byte{0x81}, []byte{0x01, 0x61, 0x62}) }, []byte{0x81, 0x01, 0x61, 0x62}},
+	{"New(ff,ff,03 61)", func() *container.Container { return container.New([]byte{0xff}, []byte{0xff}, []byte{0x03, 0x61}) }, []byte{0xff, 0xff, 0x03, 0x61}},
+	{"New(82,empty,00 61 62)", func() *container.Container { return container.New([]byte{0x82}, []byte{}, []byte{0x00, 0x61, 0x62}) }, []byte{0x82, 0x00, 0x61, 0x62}},
 }
 
 type witness struct {
@@ -584,7 +593,7 @@ func main() {
 		for i, o := range ops {
 			byName[o.name] = i
 		}
-		c.Rule(fmt.Sprintf("BFS over operation histories on the real container from %d initial containers, alphabet of %d operations (arguments: data {nil,empty,1B,3B}, requested lengths {-1,0,1,2,len,len+1,2^62}, numbers {0,1,3,127,128,255,256,2^62,2^63,2^64-1}, 4 argument containers); "+
+		c.Rule(fmt.Sprintf("BFS over operation histories on the real container from %d initial containers, alphabet of %d operations (arguments: data {nil,empty,1B,3B, a byte with the continuation bit}; initial containers incl. multi-byte numbers spread over compartments; requested lengths {-1,0,1,2,len,len+1,2^62}, numbers {0,1,3,127,128,255,256,2^62,2^63,2^64-1}, 4 argument containers); "+
 			"each history is replayed on a fresh container and on a []byte queue, every result compared; containers handed to AppendContainer* or returned by PeekContainer/GetAsContainer/GetNextBlockAsContainer are kept and must stay independent of the container under test in both directions; states de-duplicated on (offset, compartment length vector, content); "+
 			"non-trivial = distinct reached states whose container holds more than one compartment or a non-zero offset", len(seeds), len(ops)))
 		c.Assume("a negative requested length may be refused or yield nothing (nothing consumed); GetNextBlock is defined compositionally as GetNextN64 followed by Get(length), so a failed block read leaves the length prefix consumed")
